@@ -18,19 +18,19 @@ theorem nextSeqOf_seqOf (evs : List Ev) (pid : Nat) :
   unfold nextSeqOf seqOf
   cases evs.reverse.find? (·.pid == pid) <;> rfl
 
-theorem verOkR_suffix : ∀ (l1 l2 : List Ev), VerOkR (l1 ++ l2) → VerOkR l2
+theorem conc_verOkR_suffix : ∀ (l1 l2 : List Ev), VerOkR (l1 ++ l2) → VerOkR l2
   | [], _, h => h
-  | _ :: l1, l2, h => verOkR_suffix l1 l2 h.1
+  | _ :: l1, l2, h => conc_verOkR_suffix l1 l2 h.1
 
-theorem seqOkR_suffix : ∀ (l1 l2 : List Ev), SeqOkR (l1 ++ l2) → SeqOkR l2
+theorem conc_seqOkR_suffix : ∀ (l1 l2 : List Ev), SeqOkR (l1 ++ l2) → SeqOkR l2
   | [], _, h => h
-  | _ :: l1, l2, h => seqOkR_suffix l1 l2 h.1
+  | _ :: l1, l2, h => conc_seqOkR_suffix l1 l2 h.1
 
-theorem verOk_prefix {a b : List Ev} (h : VerOk (a ++ b)) : VerOk a := by
-  unfold VerOk at h ⊢; rw [List.reverse_append] at h; exact verOkR_suffix _ _ h
+theorem conc_verOk_prefix {a b : List Ev} (h : VerOk (a ++ b)) : VerOk a := by
+  unfold VerOk at h ⊢; rw [List.reverse_append] at h; exact conc_verOkR_suffix _ _ h
 
-theorem seqOk_prefix {a b : List Ev} (h : SeqOk (a ++ b)) : SeqOk a := by
-  unfold SeqOk at h ⊢; rw [List.reverse_append] at h; exact seqOkR_suffix _ _ h
+theorem conc_seqOk_prefix {a b : List Ev} (h : SeqOk (a ++ b)) : SeqOk a := by
+  unfold SeqOk at h ⊢; rw [List.reverse_append] at h; exact conc_seqOkR_suffix _ _ h
 
 /-- versions never decrease when events are appended (newest-first induction) -/
 theorem latestOf_mono_aux {st k v : Nat} (ar : List Ev) (h0 : latestOf ar.reverse st = some (k, v)) :
@@ -130,10 +130,10 @@ theorem pub_events {b b' : Bucket} (hi' : Inv b') (hext : ∃ ext, b'.pubIdx = b
   refine ⟨ra, rb, h4, by rw [he, hydrate_append, h4, h5], ?_, ?_⟩
   · have := hi'.ver_ok
     rw [hi'.abs_events, h1, h3, evsOf_append, evsOf_append] at this
-    exact verOk_prefix this
+    exact conc_verOk_prefix this
   · have := hi'.seq_ok
     rw [hi'.abs_events, h1, h3, evsOf_append, evsOf_append] at this
-    exact seqOk_prefix this
+    exact conc_seqOk_prefix this
 
 /-- the stream version read through the published indexes never decreases -/
 theorem streamVersion_mono {b b' : Bucket} (hi' : Inv b') (hext : ∃ ext, b'.pubIdx = b.pubIdx ++ ext)
